@@ -98,6 +98,7 @@ func genC18(r *Rnd, t Tier) *Case {
 				st.RetryAfter = r.Range(1, 3)
 			}
 			st.ConnErr = r.P(0.12)
+			st.ConnErrTimeout = st.ConnErr && r.P(0.35)
 			st.LateUpload = r.P(0.15)
 			st.BodySize = pick(r, 0, 5, 300, 5000)
 			if st.BodySize > 0 && r.P(0.4) {
